@@ -1,10 +1,15 @@
-(* C19.  x/rewards/keeper/utils.go SplitTotalAmountPerEpoch; gauge.go InitateGaugesForDuration
-   (non-swap-fee branch, 224-255) with distribution.go BeginRewardDistributions (63-93: the
-   "sum of calculated rewards <= allocation" check, sends whose errors are ignored);
-   epochs.go TriggerAndUpdateEpochInfos (24-60: fresh epoch, skipped epochs, trigger);
-   liquidity/keeper/rewards.go GetFarmingRewardsData share formula (243-262 master/child min
-   rule, 278-292 plain).  Definitions only.  One reward denom; swap-fee gauges, external reward
-   programs (rewards/keeper/iter.go) are not modelled. *)
+(* C19.  x/rewards/keeper/utils.go SplitTotalAmountPerEpoch; gauge.go ValidateMsgCreateGauge (14-44),
+   CreateNewGauge (179-207), InitateGaugesForDuration (210-300: the non-swap-fee branch 222-256 and
+   the swap-fee branch 257-296) with distribution.go BeginRewardDistributions (63-93: the "sum of
+   calculated rewards <= allocation" check, sends whose errors are ignored); epochs.go
+   TriggerAndUpdateEpochInfos (24-60: fresh epoch, skipped epochs, trigger); liquidity/keeper/
+   rewards.go GetFarmingRewardsData share formula (243-276 master/child min rule, 280-298 plain);
+   rewards/keeper/iter.go DistributeExtRewardLocker (15-95) / DistributeExtRewardVault (97-175) with
+   keeper.go ActExternalRewardsLockers / ActExternalRewardsVaults (122-223); abci.go BeginBlocker.
+   Definitions only.  Times are whole seconds.  The farmed values (lpSupplies), the child-pool
+   contributions, the amount TransferFundsForSwapFeeDistribution hands over, and the locker / vault
+   populations enter as recorded environment values.  DistributeExtRewardLend (230-314) with AddLendExternalRewards.  Not modelled: stable-mint external
+   programs, ESM / circuit-breaker early returns of the external distributions. *)
 From Comdex Require Import Lib.Base Lib.DecArith Lib.F64.
 
 (* ---------------- SplitTotalAmountPerEpoch (uint64 arguments) ---------------- *)
@@ -22,27 +27,55 @@ Definition split (total epochs : Z) : outcome (list Z) :=
   else Ok (split_loop (Z.to_nat epochs) 0 (epochs - total mod epochs) (total / epochs)).
 
 (* ---------------- gauge ---------------- *)
+(* g_swap: ForSwapFee (created by liquidity CreatePool); for those DepositAmount is the amount
+   waiting to be distributed, not a total *)
 Record gauge := mkGauge {
-  g_deposit : Z; g_distributed : Z; g_triggered : Z; g_total : Z; g_active : bool; g_start : Z }.
+  g_deposit : Z; g_distributed : Z; g_triggered : Z; g_total : Z; g_active : bool; g_start : Z;
+  g_dur : Z; g_swap : bool; g_denom : Z }.
+
+Definition pays := list (Z * Z).                  (* (receiver account, amount) *)
+Definition pay_total (l : pays) : Z := zsum (map snd l).
 
 (* sends of doDistributionSends: a send that the module balance cannot cover is logged and
    skipped; returns the new balance and what each receiver actually got *)
-Fixpoint do_sends (bal : Z) (rewards : list Z) : Z * list Z :=
+Fixpoint do_sends (bal : Z) (rewards : pays) : Z * pays :=
   match rewards with
   | [] => (bal, [])
-  | r :: rest =>
-      if r <=? bal then let '(b, ps) := do_sends (bal - r) rest in (b, r :: ps)
-      else let '(b, ps) := do_sends bal rest in (b, 0 :: ps)
+  | (a, r) :: rest =>
+      if r <=? bal then let '(b, ps) := do_sends (bal - r) rest in (b, (a, r) :: ps)
+      else let '(b, ps) := do_sends bal rest in (b, (a, 0) :: ps)
   end.
 
-(* one pass of the loop body for one non-swap-fee gauge.
-   [calc]: what GetFarmingRewardsData returns for the coin to distribute (Err = it fails: pool
-   disabled / depleted, no oracle price, ...), an arbitrary input here.  Negative entries cannot
-   be built (sdk.NewCoin panics).  Result: gauge, module balance, amounts received. *)
-Definition trigger (now : Z) (calc : outcome (list Z)) (bal : Z) (g : gauge) : outcome (gauge * Z * list Z) :=
+(* BeginRewardDistributions for [coins].  [calc]: what GetFarmingRewardsData returns for the coin
+   to distribute (Err = it fails: pool disabled / depleted, no oracle price, ...), arbitrary here.
+   Negative entries cannot be built (sdk.NewCoin panics).
+   Ok None = it returned an error (the caller logs and continues);
+   Ok (Some (total booked, new module balance, amounts received)). *)
+Definition distribute (calc : Z -> outcome pays) (coins bal : Z) : outcome (option (Z * Z * pays)) :=
+  match calc coins with
+  | Panic => Panic
+  | Err _ => Ok None
+  | Ok rewards =>
+      if existsb (fun r => snd r <? 0) rewards then Panic else
+      let tot := pay_total rewards in
+      if coins <? tot then Ok None                           (* ErrInvalidCalculatedAMount *)
+      else let '(bal', paid) := do_sends bal rewards in Ok (Some (tot, bal', paid))
+  end.
+
+Definition g_set_active (g : gauge) (a : bool) : gauge :=
+  mkGauge (g_deposit g) (g_distributed g) (g_triggered g) (g_total g) a (g_start g) (g_dur g) (g_swap g) (g_denom g).
+Definition g_paid (g : gauge) (tot : Z) : gauge :=
+  mkGauge (g_deposit g) (g_distributed g + tot) (g_triggered g + 1) (g_total g) (g_active g) (g_start g)
+          (g_dur g) (g_swap g) (g_denom g).
+Definition g_swap_paid (g : gauge) (tot recv : Z) : gauge :=
+  mkGauge (g_deposit g - tot + recv) (g_distributed g + tot) (g_triggered g + 1) (g_total g) (g_active g) (g_start g)
+          (g_dur g) (g_swap g) (g_denom g).
+
+(* one pass of the loop body for one non-swap-fee gauge.  Result: gauge, module balance (of the
+   gauge's denom), amounts received. *)
+Definition trigger (now : Z) (calc : Z -> outcome pays) (bal : Z) (g : gauge) : outcome (gauge * Z * pays) :=
   if (now <? g_start g) || negb (g_active g) then Ok (g, bal, [])
-  else if g_triggered g =? g_total g then
-    Ok (mkGauge (g_deposit g) (g_distributed g) (g_triggered g) (g_total g) false (g_start g), bal, [])
+  else if g_triggered g =? g_total g then Ok (g_set_active g false, bal, [])
   else match uint64_c (g_deposit g) with
   | None => Panic                                            (* Int.Uint64() out of bounds *)
   | Some d =>
@@ -54,20 +87,34 @@ Definition trigger (now : Z) (calc : outcome (list Z)) (bal : Z) (g : gauge) : o
       | None => Panic
       | Some amount =>
         if g_deposit g - g_distributed g <? amount then Ok (g, bal, [])
-        else match calc with
-        | Panic => Panic
-        | Err _ => Ok (g, bal, [])
-        | Ok rewards =>
-          if existsb (fun r => r <? 0) rewards then Panic else
-          let tot := zsum rewards in
-          if amount <? tot then Ok (g, bal, [])                (* ErrInvalidCalculatedAMount *)
-          else let '(bal', paid) := do_sends bal rewards in
-               Ok (mkGauge (g_deposit g) (g_distributed g + tot) (g_triggered g + 1) (g_total g)
-                           (g_active g) (g_start g), bal', paid)
+        else match distribute calc amount bal with
+        | Panic => Panic | Err c => Err c
+        | Ok None => Ok (g, bal, [])
+        | Ok (Some (tot, bal', paid)) => Ok (g_paid g tot, bal', paid)
         end
       end
     end
   end.
+
+(* the swap-fee branch: distribute what was accumulated at the previous epoch, then fetch this
+   epoch's fees.  [recv]: what TransferFundsForSwapFeeDistribution returns (the coins are credited
+   to the module account by that call).  When the transfer fails AFTER a successful distribution
+   the loop continues WITHOUT SetGauge: the sends stay, the record keeps its old DepositAmount. *)
+Definition trigger_swap (calc : Z -> outcome pays) (recv : outcome Z) (bal : Z) (g : gauge) : outcome (gauge * Z * pays) :=
+  let dist := if 0 <? g_deposit g then distribute calc (g_deposit g) bal else Ok (Some (0, bal, [])) in
+  match dist with
+  | Panic => Panic | Err c => Err c
+  | Ok None => Ok (g, bal, [])
+  | Ok (Some (tot, bal', paid)) =>
+    match recv with
+    | Panic => Panic
+    | Err _ => Ok (g, bal', paid)
+    | Ok r => Ok (g_swap_paid g tot r, bal' + r, paid)
+    end
+  end.
+
+Definition trigger_any (now : Z) (calc : Z -> outcome pays) (recv : outcome Z) (bal : Z) (g : gauge) :=
+  if g_swap g then trigger_swap calc recv bal g else trigger now calc bal g.
 
 (* the allocation of the epoch about to be triggered (what c19_epoch_cap compares with) *)
 Definition epoch_allocation (g : gauge) : Z :=
@@ -76,48 +123,13 @@ Definition epoch_allocation (g : gauge) : Z :=
   | _ => 0
   end.
 
-(* ---------------- a rewards module with several gauges sharing one custody balance ------------ *)
-Record rstate := mkR { r_bal : Z; r_gauges : list gauge }.
-
-Inductive gop :=
-| Create (deposit total start now : Z) (funds : Z)    (* MsgCreateGauge; funds = creator's balance *)
-| Trig (idx : nat) (now : Z) (calc : outcome (list Z))  (* the epoch trigger reaching gauge idx *)
-| Donate (amt : Z).                                    (* any other credit to the module account *)
-
-Fixpoint set_gauge (l : list gauge) (i : nat) (g : gauge) : list gauge :=
-  match l, i with
-  | [], _ => []
-  | _ :: r, O => g :: r
-  | x :: r, S j => x :: set_gauge r j g
-  end.
-
-(* ValidateMsgCreateGauge (gauge.go 14-44) + CreateNewGauge (179-207); Err 1 = rejected *)
-Definition rstep (s : rstate) (o : gop) : outcome rstate :=
-  match o with
-  | Create dep total start now funds =>
-      if (dep <=? 0) || (dep <? total) || (start <? now) || (funds <? dep) then Err 1
-      else Ok (mkR (r_bal s + dep) (r_gauges s ++ [mkGauge dep 0 0 total true start]))
-  | Trig i now calc =>
-      match nth_z (r_gauges s) i with
-      | None => Ok s
-      | Some g => match trigger now calc (r_bal s) g with
-                  | Ok (g', b', _) => Ok (mkR b' (set_gauge (r_gauges s) i g'))
-                  | Err c => Err c | Panic => Panic
-                  end
-      end
-  | Donate a => if a <? 0 then Err 1 else Ok (mkR (r_bal s + a) (r_gauges s))
-  end.
-
-(* a failed step leaves the state unchanged (ApplyFuncIfNoError / baseapp message cache) *)
-Definition rapply (s : rstate) (o : gop) : rstate := match rstep s o with Ok s' => s' | _ => s end.
-Definition rrun (s : rstate) (ops : list gop) : rstate := fold_left rapply ops s.
-
-Definition undistributed (gs : list gauge) : Z := zsum (map (fun g => g_deposit g - g_distributed g) gs).
+(* what a gauge still owes: deposit - distributed, for a swap-fee gauge its waiting deposit *)
+Definition g_rem (g : gauge) : Z := if g_swap g then g_deposit g else g_deposit g - g_distributed g.
 
 (* ---------------- epochs.go: when does the trigger fire ---------------- *)
 Record epoch := mkEpoch { e_fresh : bool (* StartTime is the zero time *); e_cur : Z; e_cest : Z; e_dur : Z }.
 Inductive tick_result := TFresh | TSkipped | TTrigger | TNothing.
-(* times in nanoseconds; Before / After are strict *)
+(* Before / After are strict *)
 Definition epoch_tick (now : Z) (e : epoch) : epoch * tick_result :=
   if e_fresh e && (e_cur e =? 0) then (mkEpoch false (e_cur e) (e_cest e - e_dur e) (e_dur e), TFresh)
   else if e_cest e + 2 * e_dur e <? now then
@@ -143,11 +155,447 @@ Definition farm_rewards_master (coins : Z) (master child : list Z) : list Z :=
   let total := zsum ms in
   if total =? 0 then [] else map (share_reward coins total) (filter (fun s => negb (s =? 0)) ms).
 
+(* the same with the receivers attached; the environment of one gauge *)
+Inductive farm_env :=
+| FarmErr                                              (* GetFarmingRewardsData returns an error *)
+| FarmPlain (fs : list (Z * Z))                        (* (account, farmed value as a Dec) per active farmer *)
+| FarmMaster (fs : list (Z * Z)) (child : list Z).     (* + aggregated child-pool value, positional *)
+
+Definition two63 : Z := 9223372036854775808.
+(* int64(x) of a float >= 2^63 is the minimum int64 on amd64; sdk.NewCoin then panics *)
+Definition coin_of_float (a r : Z) : outcome (Z * Z) := if two63 <=? r then Panic else Ok (a, r).
+Fixpoint collect (l : list (outcome (Z * Z))) : outcome pays :=
+  match l with
+  | [] => Ok []
+  | Ok p :: r => match collect r with Ok ps => Ok (p :: ps) | Err c => Err c | Panic => Panic end
+  | Err c :: _ => Err c
+  | Panic :: _ => Panic
+  end.
+Definition farm_calc (e : farm_env) (coins : Z) : outcome pays :=
+  match e with
+  | FarmErr => Err 1
+  | FarmPlain fs =>
+      let total := zsum (map snd fs) in
+      if total =? 0 then Ok [] else collect (map (fun f => coin_of_float (fst f) (share_reward coins total (snd f))) fs)
+  | FarmMaster fs child =>
+      let ms := combine (map fst fs) (min_supplies (map snd fs) child) in
+      let total := zsum (map snd ms) in
+      if total =? 0 then Ok []
+      else collect (map (fun f => coin_of_float (fst f) (share_reward coins total (snd f)))
+                        (filter (fun f => negb (snd f =? 0)) ms))
+  end.
+
+(* (account, eligible farmed value) of an environment: what "pro rata by farmed value" refers to *)
+Definition eligible (e : farm_env) : list (Z * Z) :=
+  match e with
+  | FarmErr => []
+  | FarmPlain fs => fs
+  | FarmMaster fs child => combine (map fst fs) (min_supplies (map snd fs) child)
+  end.
+
 (* known-finding class C19-F1: the multiplier coins/total is rounded to 18 decimals before it is
    multiplied by the farmer's value, so when the farmed value is large against the allocation the
    multiplier has few significant digits: total (scaled) > coins * 4*10^23, i.e. total farmed
    value in units > 400 000 * the epoch allocation *)
 Definition kf_C19_1 (coins total : Z) : bool := coins * 400000 * P18 <? total.
+
+(* ---------------- external reward programs (lockers: kind 0, vaults: kind 1) ---------------- *)
+(* x_next: StartingTime of the program's EpochTime record, x_count its Count *)
+Record ext := mkExt { x_kind : Z; x_denom : Z; x_avail : Z; x_active : bool; x_days : Z; x_count : Z;
+                      x_next : Z; x_minlock : Z }.
+(* population: the lockers of the (app, asset) lookup / the vaults of the (app, extended pair)
+   mapping as (owner, NetBalance / AmountOut, CreatedAt) and the lookup's DepositedAmount /
+   TokenMintedAmount *)
+Record xenv := mkXenv { xe_total : Z; xe_pop : list (Z * Z * Z) }.
+Definition DAY : Z := 86400.
+
+(* finalDailyRewards of one locker / vault.  Int64() panics out of range, Quo panics on zero. *)
+Definition ext_final (kind avail dleft total net : Z) : outcome Z :=
+  match int64_c net, (if kind =? 0 then int64_c total else Some total), int64_c avail with
+  | Some n, Some t, Some a =>
+      if t =? 0 then Panic else
+      let share := dquo (dec_of_int n) (dec_of_int t) in
+      let er := dquo (dec_of_int a) (dec_of_int dleft) in
+      Ok (dtrunc_int (dmul share er))
+  | _, _, _ => Panic
+  end.
+
+(* the loop over the population: module balance, amountRewardedTracker, amounts received *)
+Fixpoint ext_loop (x : ext) (now total : Z) (pop : list (Z * Z * Z)) (bal tracker : Z) : outcome (Z * Z * pays) :=
+  match pop with
+  | [] => Ok (bal, tracker, [])
+  | (a, net, created) :: rest =>
+      if negb (x_count x =? x_days x - 1) && (now - created <? x_minlock x) then ext_loop x now total rest bal tracker
+      else match ext_final (x_kind x) (x_avail x) (x_days x - x_count x) total net with
+      | Panic => Panic | Err c => Err c
+      | Ok f =>
+          if 0 <? f then
+            let '(bal1, got) := if f <=? bal then (bal - f, f) else (bal, 0) in
+            match ext_loop x now total rest bal1 (tracker + f) with
+            | Ok (b, t, ps) => Ok (b, t, (a, got) :: ps)
+            | Err c => Err c | Panic => Panic
+            end
+          else ext_loop x now total rest bal tracker
+      end
+  end.
+
+Definition ext_tick (now : Z) (e : xenv) (bal : Z) (x : ext) : outcome (ext * Z * pays) :=
+  if negb (x_active x) then Ok (x, bal, [])
+  else if negb (x_next x <? now) then Ok (x, bal, [])
+  else if x_count x <? x_days x then
+    match ext_loop x now (xe_total e) (xe_pop e) bal 0 with
+    | Panic => Panic | Err c => Err c
+    | Ok (bal', tracker, paid) =>
+        Ok (mkExt (x_kind x) (x_denom x) (x_avail x - tracker) true (x_days x) (x_count x + 1) (now + DAY) (x_minlock x),
+            bal', paid)
+    end
+  else Ok (mkExt (x_kind x) (x_denom x) (x_avail x) false (x_days x) (x_count x) (x_next x) (x_minlock x), bal, []).
+
+(* known-finding class C19-F3: a program books more than it has left (the rounded shares add up
+   to more than one and the product is truncated only afterwards) *)
+Definition kf_C19_3 (now : Z) (e : xenv) (x : ext) : bool :=
+  match ext_tick now e 0 x with
+  | Ok (x', _, _) => x_avail x' <? 0
+  | _ => false
+  end.
+
+(* ---------------- lend external reward programs (kind 2): DistributeExtRewardLend ---------------- *)
+(* environment of one program: le_ok = the asset statistics of (pool, asset) were found (otherwise the
+   whole function returns); le_new = (lend owner, min(farmed master-pool value, borrowed value)) of the
+   borrow positions it walks, as Decs; le_price = (Twa, Decimals) of the reward asset when the asset
+   and its price are found *)
+Record lenv := mkLenv { le_ok : bool; le_new : list (Z * Z); le_price : option (Z * Z) }.
+
+(* the loop over ALL borrowers collected so far (the slices are declared outside the loop over the
+   programs and never reset): finalDailyRewardsPerUser = amount_i.Mul(totalAPR), truncated *)
+Fixpoint lend_loop (apr : Z) (arr : list (Z * Z)) (bal tracker : Z) : Z * Z * pays :=
+  match arr with
+  | [] => (bal, tracker, [])
+  | (a, amt) :: rest =>
+      let f := dtrunc_int (dmul amt apr) in
+      if 0 <? f then
+        let '(bal1, got) := if f <=? bal then (bal - f, f) else (bal, 0) in
+        let '(b, t, ps) := lend_loop apr rest bal1 (tracker + f) in (b, t, (a, got) :: ps)
+      else lend_loop apr rest bal tracker
+  end.
+
+(* result of one program: None = the function returns (no further program is processed) *)
+Definition lend_tick (now : Z) (e : lenv) (arr : list (Z * Z)) (tot bal : Z) (x : ext)
+  : outcome (option (ext * Z * pays * list (Z * Z) * Z)) :=
+  if negb (x_active x) then Ok (Some (x, bal, [], arr, tot))
+  else if negb (x_next x <? now) then Ok (Some (x, bal, [], arr, tot))
+  else if x_count x <? x_days x then
+    if negb (le_ok e) then Ok None
+    else
+      let arr' := arr ++ le_new e in
+      let tot' := tot + zsum (map (fun p => dtrunc_int (snd p)) (le_new e)) in
+      match le_price e with
+      | None => Ok (Some (x, bal, [], arr', tot'))
+      | Some (twa, decimals) =>
+          if decimals =? 0 then Panic else
+          let value := dquo (dmul (dec_of_int (x_avail x)) (dec_of_int twa)) (dec_of_int decimals) in
+          if tot' <=? 0 then Ok (Some (x, bal, [], arr', tot'))
+          else
+            let daily := dquo value (dec_of_int (x_days x - x_count x)) in
+            let apr := dquo daily (dec_of_int tot') in
+            let '(bal', tracker, paid) := lend_loop apr arr' bal 0 in
+            Ok (Some (mkExt (x_kind x) (x_denom x) (x_avail x - tracker) true (x_days x) (x_count x + 1) (now + DAY) (x_minlock x),
+                      bal', paid, arr', tot'))
+      end
+  else Ok (Some (mkExt (x_kind x) (x_denom x) (x_avail x) false (x_days x) (x_count x) (x_next x) (x_minlock x), bal, [], arr, tot)).
+
+(* known-finding class C19-F4: a lend program books more than it has left (the daily reward is computed
+   as a VALUE - amount times oracle price - and paid out as an AMOUNT of the reward denom) *)
+Definition kf_C19_4 (now : Z) (e : lenv) (arr : list (Z * Z)) (tot : Z) (x : ext) : bool :=
+  match lend_tick now e arr tot 0 x with
+  | Ok (Some (x', _, _, _, _)) => x_avail x' <? 0
+  | _ => false
+  end.
+
+(* a sufficient condition for a program step to stay out of class C19-F3: non-negative balances
+   that add up to at most the recorded total (what the locker / vault books guarantee), and
+   4 * owners * available <= 10^18 *)
+Definition pop_net (pop : list (Z * Z * Z)) : Z := zsum (map (fun u => snd (fst u)) pop).
+Definition ext_safe (e : xenv) (x : ext) : bool :=
+  (0 <=? x_avail x) && forallb (fun u => 0 <=? snd (fst u)) (xe_pop e) && (0 <? xe_total e) &&
+  (pop_net (xe_pop e) <=? xe_total e) && (4 * zlen (xe_pop e) * x_avail x <=? P18) && (4 * zlen (xe_pop e) <=? P18).
+
+(* ---------------- the rewards module: gauges, epochs, programs, one custody account ----------- *)
+Definition bank := Z -> Z.                        (* denom -> balance of the rewards module account *)
+Definition bset (b : bank) (d v : Z) : bank := fun x => if x =? d then v else b x.
+
+Record rstate := mkR { r_bal : bank; r_gauges : list gauge; r_epochs : list epoch; r_exts : list ext }.
+
+(* environment of one BeginBlocker: per gauge (positional) the farming data and the swap-fee
+   transfer result, per program (positional) its population *)
+Record benv := mkBenv4 { be_farm : list farm_env; be_recv : list (outcome Z); be_ext : list xenv; be_lend : list lenv }.
+Definition mkBenv (f : list farm_env) (r : list (outcome Z)) (x : list xenv) : benv := mkBenv4 f r x [].
+
+Definition dpays := list (Z * Z * Z).             (* (denom, receiver, amount) *)
+Definition tag (d : Z) (l : pays) : dpays := map (fun p => (d, fst p, snd p)) l.
+
+Definition hd_farm (l : list farm_env) : farm_env := match l with e :: _ => e | [] => FarmErr end.
+Definition hd_recv (l : list (outcome Z)) : outcome Z := match l with e :: _ => e | [] => Err 1 end.
+Definition hd_xenv (l : list xenv) : xenv := match l with e :: _ => e | [] => mkXenv 0 [] end.
+Definition hd_lenv (l : list lenv) : lenv := match l with e :: _ => e | [] => mkLenv false [] None end.
+
+(* InitateGaugesForDuration: the gauges of one duration in id order *)
+Fixpoint run_gauges (now dur : Z) (gs : list gauge) (fe : list farm_env) (rv : list (outcome Z)) (b : bank)
+  : outcome (list gauge * bank * dpays) :=
+  match gs with
+  | [] => Ok ([], b, [])
+  | g :: rest =>
+      if g_dur g =? dur then
+        match trigger_any now (farm_calc (hd_farm fe)) (hd_recv rv) (b (g_denom g)) g with
+        | Panic => Panic | Err c => Err c
+        | Ok (g', bal', paid) =>
+            match run_gauges now dur rest (tl fe) (tl rv) (bset b (g_denom g) bal') with
+            | Ok (gs', b', ps) => Ok (g' :: gs', b', tag (g_denom g) paid ++ ps)
+            | Err c => Err c | Panic => Panic
+            end
+        end
+      else match run_gauges now dur rest (tl fe) (tl rv) b with
+           | Ok (gs', b', ps) => Ok (g :: gs', b', ps)
+           | Err c => Err c | Panic => Panic
+           end
+  end.
+
+(* TriggerAndUpdateEpochInfos: the epochs in store order (ascending duration) *)
+Fixpoint run_epochs (now : Z) (es : list epoch) (gs : list gauge) (fe : list farm_env) (rv : list (outcome Z)) (b : bank)
+  : outcome (list epoch * list gauge * bank * dpays) :=
+  match es with
+  | [] => Ok ([], gs, b, [])
+  | e :: rest =>
+      let '(e', r) := epoch_tick now e in
+      match (match r with TTrigger => run_gauges now (e_dur e) gs fe rv b | _ => Ok (gs, b, []) end) with
+      | Panic => Panic | Err c => Err c
+      | Ok (gs1, b1, ps1) =>
+          match run_epochs now rest gs1 fe rv b1 with
+          | Ok (es', gs2, b2, ps2) => Ok (e' :: es', gs2, b2, ps1 ++ ps2)
+          | Err c => Err c | Panic => Panic
+          end
+      end
+  end.
+
+(* DistributeExtRewardLocker (kind 0) / DistributeExtRewardVault (kind 1): the programs of one kind *)
+Fixpoint run_exts (kind now : Z) (xs : list ext) (xe : list xenv) (b : bank) : outcome (list ext * bank * dpays) :=
+  match xs with
+  | [] => Ok ([], b, [])
+  | x :: rest =>
+      if x_kind x =? kind then
+        match ext_tick now (hd_xenv xe) (b (x_denom x)) x with
+        | Panic => Panic | Err c => Err c
+        | Ok (x', bal', paid) =>
+            match run_exts kind now rest (tl xe) (bset b (x_denom x) bal') with
+            | Ok (xs', b', ps) => Ok (x' :: xs', b', tag (x_denom x) paid ++ ps)
+            | Err c => Err c | Panic => Panic
+            end
+        end
+      else match run_exts kind now rest (tl xe) b with
+           | Ok (xs', b', ps) => Ok (x :: xs', b', ps)
+           | Err c => Err c | Panic => Panic
+           end
+  end.
+
+(* DistributeExtRewardLend: the programs of kind 2 in id order, the borrower slices carried along *)
+Fixpoint run_lends (now : Z) (xs : list ext) (le : list lenv) (arr : list (Z * Z)) (tot : Z) (b : bank)
+  : outcome (list ext * bank * dpays) :=
+  match xs with
+  | [] => Ok ([], b, [])
+  | x :: rest =>
+      if x_kind x =? 2 then
+        match lend_tick now (hd_lenv le) arr tot (b (x_denom x)) x with
+        | Panic => Panic | Err c => Err c
+        | Ok None => Ok (xs, b, [])
+        | Ok (Some (x', bal', paid, arr', tot')) =>
+            match run_lends now rest (tl le) arr' tot' (bset b (x_denom x) bal') with
+            | Ok (xs', b', ps) => Ok (x' :: xs', b', tag (x_denom x) paid ++ ps)
+            | Err c => Err c | Panic => Panic
+            end
+        end
+      else match run_lends now rest (tl le) arr tot b with
+           | Ok (xs', b', ps) => Ok (x :: xs', b', ps)
+           | Err c => Err c | Panic => Panic
+           end
+  end.
+
+(* rewards.BeginBlocker (stable-mint programs absent) *)
+Definition begin_block (now : Z) (e : benv) (s : rstate) : outcome (rstate * dpays) :=
+  match run_epochs now (r_epochs s) (r_gauges s) (be_farm e) (be_recv e) (r_bal s) with
+  | Panic => Panic | Err c => Err c
+  | Ok (es, gs, b1, p1) =>
+    match run_exts 0 now (r_exts s) (be_ext e) b1 with
+    | Panic => Panic | Err c => Err c
+    | Ok (xs1, b2, p2) =>
+      match run_exts 1 now xs1 (be_ext e) b2 with
+      | Panic => Panic | Err c => Err c
+      | Ok (xs2, b3, p3) =>
+        match run_lends now xs2 (be_lend e) [] 0 b3 with
+        | Panic => Panic | Err c => Err c
+        | Ok (xs3, b4, p4) => Ok (mkR b4 gs es xs3, p1 ++ p2 ++ p3 ++ p4)
+        end
+      end
+    end
+  end.
+
+Inductive gop :=
+| Create (denom dep total start now dur funds : Z) (meta_ok : bool)
+    (* MsgCreateGauge; funds = creator's balance; meta_ok = app, pool, oracle price, child pools are fine *)
+| CreateSwap (denom now dur : Z)                      (* liquidity CreatePool -> CreateNewGauge(forSwapFee) *)
+| ExtCreate (kind denom total days minlock now funds : Z) (ok : bool)
+    (* ActivateExternalRewardsLockers / Vault / Lend (kind 0 / 1 / 2); ok = the lookups of the handler succeed *)
+| Begin (now : Z) (e : benv)
+| Donate (denom amt : Z).                              (* any other credit to the module account *)
+
+Definition MIN_EPOCH_DUR : Z := 43200.
+(* AddLendExternalRewards: StartingTime = now + 84600 (sic) *)
+Definition LEND_FIRST : Z := 84600.
+
+Fixpoint has_epoch (dur : Z) (es : list epoch) : bool :=
+  match es with [] => false | e :: r => (e_dur e =? dur) || has_epoch dur r end.
+Fixpoint insert_epoch (n : epoch) (es : list epoch) : list epoch :=
+  match es with
+  | [] => [n]
+  | e :: r => if e_dur n <? e_dur e then n :: es else e :: insert_epoch n r
+  end.
+(* NewEpochInfo when the duration has none yet *)
+Definition ensure_epoch (now dur : Z) (es : list epoch) : list epoch :=
+  if has_epoch dur es then es else insert_epoch (mkEpoch true 0 now dur) es.
+
+(* Err 1 = rejected *)
+Definition rstep (s : rstate) (o : gop) : outcome (rstate * dpays) :=
+  match o with
+  | Create d dep total start now dur funds meta_ok =>
+      if (dur <=? 0) || (dep <=? 0) || (dep <? total) || (dur <? MIN_EPOCH_DUR) || (start <? now) || negb meta_ok
+         || (funds <? dep) then Err 1
+      else Ok (mkR (bset (r_bal s) d (r_bal s d + dep))
+                   (r_gauges s ++ [mkGauge dep 0 0 total true start dur false d])
+                   (ensure_epoch now dur (r_epochs s)) (r_exts s), [])
+  | CreateSwap d now dur =>
+      Ok (mkR (r_bal s) (r_gauges s ++ [mkGauge 0 0 0 1 true now dur true d])
+              (ensure_epoch now dur (r_epochs s)) (r_exts s), [])
+  | ExtCreate kind d total days minlock now funds ok =>
+      if (total <=? 0) || (days <=? 0) || ((kind <? 2) && (minlock <=? 0)) || negb ok || (funds <? total) then Err 1
+      else Ok (mkR (bset (r_bal s) d (r_bal s d + total)) (r_gauges s) (r_epochs s)
+                   (r_exts s ++ [mkExt kind d total true days 0 (now + (if kind =? 2 then LEND_FIRST else DAY)) minlock]), [])
+  | Begin now e => begin_block now e s
+  | Donate d a => if a <? 0 then Err 1 else Ok (mkR (bset (r_bal s) d (r_bal s d + a)) (r_gauges s) (r_epochs s) (r_exts s), [])
+  end.
+
+(* a failed step leaves the state unchanged (ApplyFuncIfNoError / baseapp message cache) *)
+Definition rapply (s : rstate) (o : gop) : rstate := match rstep s o with Ok (s', _) => s' | _ => s end.
+Definition rrun (s : rstate) (ops : list gop) : rstate := fold_left rapply ops s.
+Definition rinit : rstate := mkR (fun _ => 0) [] [] [].
+
+(* what the module owes in one denom: every gauge's remainder and every program's available rewards *)
+Definition owed_g (d : Z) (gs : list gauge) : Z := zsum (map (fun g => if g_denom g =? d then g_rem g else 0) gs).
+Definition owed_x (d : Z) (xs : list ext) : Z := zsum (map (fun x => if x_denom x =? d then x_avail x else 0) xs).
+Definition owed (d : Z) (s : rstate) : Z := owed_g d (r_gauges s) + owed_x d (r_exts s).
+(* the same restricted to what the property names: the ACTIVE gauges and programs *)
+Definition owed_active (d : Z) (gs : list gauge) (xs : list ext) : Z :=
+  zsum (map (fun g => if (g_denom g =? d) && g_active g then g_rem g else 0) gs) +
+  zsum (map (fun x => if (x_denom x =? d) && x_active x then x_avail x else 0) xs).
+
+(* known-finding class C19-F2: a swap-fee gauge whose accumulated fees were just distributed while
+   the transfer of the new fees fails (several pools on the pair and an oracle price missing): the
+   record is not saved *)
+Definition kf_C19_2 (calc : Z -> outcome pays) (recv : outcome Z) (g : gauge) : bool :=
+  g_swap g && (0 <? g_deposit g) && negb (is_ok recv) &&
+  match distribute calc (g_deposit g) (g_deposit g) with Ok (Some (tot, _, _)) => 0 <? tot | _ => false end.
+
+(* does a BeginBlocker meet a known-finding class: evaluated along the run, on each gauge / program
+   in the state in which it is processed, only for the epochs that are due *)
+Fixpoint kf2_pass (dur : Z) (gs : list gauge) (fe : list farm_env) (rv : list (outcome Z)) : bool :=
+  match gs with
+  | [] => false
+  | g :: rest => ((g_dur g =? dur) && kf_C19_2 (farm_calc (hd_farm fe)) (hd_recv rv) g) || kf2_pass dur rest (tl fe) (tl rv)
+  end.
+Fixpoint kf2_epochs (now : Z) (es : list epoch) (gs : list gauge) (fe : list farm_env) (rv : list (outcome Z)) (b : bank) : bool :=
+  match es with
+  | [] => false
+  | e :: rest =>
+      match snd (epoch_tick now e) with
+      | TTrigger => kf2_pass (e_dur e) gs fe rv ||
+                    match run_gauges now (e_dur e) gs fe rv b with
+                    | Ok (gs1, b1, _) => kf2_epochs now rest gs1 fe rv b1
+                    | _ => false
+                    end
+      | _ => kf2_epochs now rest gs fe rv b
+      end
+  end.
+Fixpoint kf3_pass (kind now : Z) (xs : list ext) (xe : list xenv) : bool :=
+  match xs with
+  | [] => false
+  | x :: rest => ((x_kind x =? kind) && kf_C19_3 now (hd_xenv xe) x) || kf3_pass kind now rest (tl xe)
+  end.
+Definition kf2_begin (now : Z) (e : benv) (s : rstate) : bool :=
+  kf2_epochs now (r_epochs s) (r_gauges s) (be_farm e) (be_recv e) (r_bal s).
+Fixpoint kf4_pass (now : Z) (xs : list ext) (le : list lenv) (arr : list (Z * Z)) (tot : Z) : bool :=
+  match xs with
+  | [] => false
+  | x :: rest =>
+      if x_kind x =? 2 then
+        kf_C19_4 now (hd_lenv le) arr tot x ||
+        match lend_tick now (hd_lenv le) arr tot 0 x with
+        | Ok (Some (_, _, _, arr', tot')) => kf4_pass now rest (tl le) arr' tot'
+        | _ => false
+        end
+      else kf4_pass now rest (tl le) arr tot
+  end.
+Definition kf3_begin (now : Z) (e : benv) (s : rstate) : bool :=
+  match run_epochs now (r_epochs s) (r_gauges s) (be_farm e) (be_recv e) (r_bal s) with
+  | Ok (_, _, b1, _) =>
+      kf3_pass 0 now (r_exts s) (be_ext e) ||
+      match run_exts 0 now (r_exts s) (be_ext e) b1 with
+      | Ok (xs1, _, _) => kf3_pass 1 now xs1 (be_ext e)
+      | _ => false
+      end
+  | _ => false
+  end.
+Definition kf4_begin (now : Z) (e : benv) (s : rstate) : bool :=
+  match run_epochs now (r_epochs s) (r_gauges s) (be_farm e) (be_recv e) (r_bal s) with
+  | Ok (_, _, b1, _) =>
+      match run_exts 0 now (r_exts s) (be_ext e) b1 with
+      | Ok (xs1, b2, _) =>
+          match run_exts 1 now xs1 (be_ext e) b2 with
+          | Ok (xs2, _, _) => kf4_pass now xs2 (be_lend e) [] 0
+          | _ => false
+          end
+      | _ => false
+      end
+  | _ => false
+  end.
+Definition kf_step (s : rstate) (o : gop) : bool :=
+  match o with
+  | Begin now e => kf2_begin now e s || kf3_begin now e s || kf4_begin now e s
+  | _ => false
+  end.
+(* no step of the history meets a class *)
+Fixpoint run_clean (s : rstate) (ops : list gop) : bool :=
+  match ops with
+  | [] => true
+  | o :: rest => negb (kf_step s o) && run_clean (rapply s o) rest
+  end.
+
+(* well-formed environment values: a coin handed over by the fee transfer is not negative
+   (sdk.Coin cannot hold a negative amount) *)
+Definition recv_wf (r : outcome Z) : bool := match r with Ok v => 0 <=? v | _ => true end.
+Definition op_wf (o : gop) : bool :=
+  match o with
+  | Begin _ e => forallb recv_wf (be_recv e)
+  | _ => true
+  end.
+
+(* ---------------- the life of one gauge: any sequence of trigger attempts ---------------- *)
+(* state: gauge, module balance, total received so far; an attempt that fails changes nothing *)
+Definition life_step (st : gauge * Z * Z) (ev : Z * (Z -> outcome pays)) : gauge * Z * Z :=
+  let '(g, bal, acc) := st in
+  match trigger (fst ev) (snd ev) bal g with
+  | Ok (g', bal', paid) => (g', bal', acc + pay_total paid)
+  | _ => st
+  end.
+Definition fresh_gauge (dep total start dur denom : Z) : gauge := mkGauge dep 0 0 total true start dur false denom.
+Definition alloc_sum (sp : list Z) (k : Z) : Z := zsum (firstn (Z.to_nat k) sp).
 
 (* ---------------- property predicates on the IMPLEMENTATION's observations ---------------- *)
 Definition holds_C19_split (total epochs : Z) (sp : list Z) : bool :=
@@ -156,15 +604,24 @@ Definition holds_C19_split (total epochs : Z) (sp : list Z) : bool :=
     forallb (fun x => (x =? total / epochs) || (x =? total / epochs + 1)) sp
   else if total <? epochs then match sp with [] => true | _ => false end else true.
 
-(* one trigger: before/after gauge records, the amounts received, the custody balance *)
-Definition holds_C19_trigger (g g' : gauge) (paid : list Z) (bal bal' : Z) : bool :=
-  let p := zsum paid in
-  (0 <=? p) && (p <=? g_distributed g' - g_distributed g) &&
-  (g_distributed g' - g_distributed g <=? (if g_triggered g' =? g_triggered g then 0 else epoch_allocation g)) &&
-  (g_distributed g' <=? g_deposit g') && (g_triggered g' <=? g_total g') &&
-  (bal' =? bal - p).
+(* one gauge over one BeginBlocker: before / after records; [alloc] = the allocation of the epoch
+   that was due (for a swap-fee gauge: the deposit it started with) *)
+Definition holds_C19_trigger (g g' : gauge) (alloc : Z) : bool :=
+  let d := g_distributed g' - g_distributed g in
+  (0 <=? d) &&
+  (d <=? (if negb (g_swap g) && (g_triggered g' =? g_triggered g) then 0 else alloc)) &&
+  ((g_triggered g' =? g_triggered g) || (g_triggered g' =? g_triggered g + 1)) &&
+  (if g_swap g then 0 <=? g_deposit g'
+   else (g_distributed g' <=? g_deposit g') && (g_triggered g' <=? g_total g') && (g_deposit g' =? g_deposit g)).
 
-Definition holds_C19_custody (bal : Z) (gs : list gauge) : bool := undistributed gs <=? bal.
+(* one BeginBlocker, one denom: what the receivers got (sum of balance deltas) is covered by what
+   the gauges / programs booked, and the custody balance moved by exactly that (plus the swap fees
+   it received) *)
+Definition holds_C19_paid (paid booked recv bal bal' : Z) : bool :=
+  (0 <=? paid) && (paid <=? booked) && (bal' =? bal - paid + recv).
+
+Definition holds_C19_custody (d bal : Z) (gs : list gauge) (xs : list ext) : bool :=
+  forallb (fun x => negb (x_denom x =? d) || (0 <=? x_avail x)) xs && (owed_active d gs xs <=? bal).
 
 (* payout_i <= pro-rata share * (1 + 10^-12):  payout * total * 10^12 <= coins * s_i * (10^12 + 1)
    (total, s_i scaled Decs, their ratio is scale-free; coins integer) *)
